@@ -1,6 +1,7 @@
 import PolyVerif.Model.GenbankBuild
 import PolyVerif.Spec.GbStrict
 import PolyVerif.Lemmas.GbBuild
+import PolyVerif.Lemmas.GbCompose
 /-
 C03 — GenBank write-then-read is the identity; writing is deterministic; the written text
 follows the flat-file layout.
@@ -82,5 +83,61 @@ theorem build_cached_or_structural (f : Feature) (o : List Nat) :
       buildFeatureString f o = spaces 5 ++ f.type ++ spaces (16 - f.type.length)
         ++ Location.buildLoc f.sequenceLocation ++ ['\n'] ++ qualifierLines f o) := by
   constructor <;> intro h <;> simp [buildFeatureString, qualifierLines, h]
+
+/-! ### the written text follows the flat-file layout -/
+
+/-- The layout domain (every hypothesis decidable; each conjunct is a datum that the flat-file
+layout has a field for — see `Spec/GbStrict.lean`, `wfLayout`):
+locus name a non-empty blank-free word, length digits (or empty), molecule type one of poly's twelve
+(or empty), division one of the eighteen (or empty), date `dd-MMM-yyyy` (or empty); the six metadata
+texts, every reference field and every extra-block value single-spaced ASCII of ANY length; extra
+keywords distinct, ≤ 12 columns, beginning with a letter, not one of the writer's own keywords;
+feature keys ≤ 15 columns; qualifier keys distinct blank-free words without `=`; qualifier values
+printable ASCII of any length; cached location text blank-free; sequence 1 ≤ length < 10^9 letters. -/
+def WFLayout (x : Sequence) : Prop := wfLayout x = true
+
+instance (x : Sequence) : Decidable (WFLayout x) := by unfold WFLayout; infer_instance
+
+/-- **Layout clause.**  For every record of the layout domain and every map iteration order, the
+independent strict column reader (keyword = columns 1-12, continuation ⇔ 12 leading blanks, feature
+key in columns 6-20 / location from column 22, qualifier `/k="v"` at column 22, ORIGIN counter in
+columns 1-9 then groups of 10, terminator `//`) recovers exactly `abs x` from the text `Build`
+writes — with metadata wrapped over any number of lines, any number of references, extra blocks,
+features and qualifiers, cached or structural locations, and a sequence of any length below 10^9. -/
+theorem build_strict_layout (x : Sequence) (o : MapOrders) (h : WFLayout x) :
+    strictRead (build x o) = some (abs x) := by
+  rw [build_deterministic x o MapOrders.id]
+  exact PolyVerif.Lemmas.GbCompose.strict_layout_id x h
+
+/-- a record with wrapped metadata, a reference with sub-blocks, two extra keyword blocks (given
+out of order), a structural join location, a cached location, unsorted qualifiers and 70 bases -/
+def exampleRecord : Sequence :=
+  { metadata :=
+      { locus := { name := "pUC19".toList, sequenceLength := "70".toList, moleculeType := "genomic DNA".toList,
+                   genbankDivision := "SYN".toList, modificationDate := "01-JAN-2020".toList, circular := true },
+        definition := "Cloning vector pUC19 complete sequence with a definition long enough to be wrapped onto a second line".toList,
+        accession := "L09137".toList, version := "L09137.2".toList, keywords := [],
+        source := "synthetic construct".toList, organism := "synthetic construct".toList,
+        references := [{ index := "1".toList, authors := "Norrander,J. and Messing,J.".toList, title := "Improved M13 vectors".toList,
+                         range := "(bases 1 to 70)".toList }],
+        other := [("DBLINK".toList, "BioProject: PRJNA1".toList), ("COMMENT".toList, "a comment".toList)] },
+    features :=
+      [ { type := "CDS".toList,
+          sequenceLocation := { join := true, subs := [{ start := 0, stop := 10, five := true }, { start := 20, stop := 30, complement := true }] },
+          attributes := [("product".toList, "beta \"lactamase\"".toList), ("gene".toList, "bla".toList)] },
+        { type := "misc_feature".toList, gbkLocationString := "complement(5..>60)".toList } ],
+    sequence := "acgtacgtacgtacgtacgtacgtacgtacgtacgtacgtacgtacgtacgtacgtacgtacgtacgtac".toList }
+
+/-- non-vacuity: the example lies in the layout domain … -/
+example : WFLayout exampleRecord := by decide
+
+/-- … and, as a test of the statement on it, the reader does recover the record (kernel evaluation) -/
+example : strictRead (build exampleRecord { other := [1, 0], quals := fun _ => [1] }) = some (abs exampleRecord) := by
+  decide
+
+/-- outside the domain the clause fails: a 13-column extra keyword is cut by the column reader -/
+example :
+    let x : Sequence := { exampleRecord with metadata := { exampleRecord.metadata with other := [("ABCDEFGHIJKLM".toList, "v".toList)] } }
+    ¬ WFLayout x ∧ strictRead (build x {}) ≠ some (abs x) := by decide
 
 end PolyVerif.Props.C03
